@@ -144,6 +144,8 @@ pub struct Ctx {
     closure_fault_at: Cell<Option<u32>>,
     has_skip: bool,
     has_foreach: bool,
+    /// a plan contains a chunk size of 0 or near usize::MAX (C16's inputs)
+    has_extreme: bool,
 }
 
 fn quiescent_check(s: &sh::Summary) -> Option<(&'static str, &'static str, String)> {
@@ -197,6 +199,10 @@ impl Ctx {
         }
         if self.has_foreach && matches!(class, "lost" | "duplicate" | "hang" | "no-return" | "foreach-index" | "beyond-source" | "foreign-element" | "garbage") && primary != "C12" && !faulty {
             also.push("C12");
+        }
+        if self.has_extreme && matches!(class, "duplicate" | "lost" | "beyond-source" | "foreign-element" | "index-fidelity" | "index-beyond-source" | "empty-chunk" | "short-chunk" | "chunk-beyond-source" | "revived" | "thread-order") && primary != "C16" {
+            // a zero-sized pull must leave the iterator unchanged, an extreme one must behave mathematically
+            also.push("C16");
         }
         if matches!(class, "duplicate" | "handed-twice") && self.cfg.kind.consuming() && primary != "C08" {
             also.push("C08");
@@ -323,6 +329,9 @@ impl Ctx {
             // chunk contract
             if announced == 0 {
                 self.viol("C03", "empty-chunk", format!("{what} on thread {tid} returned an empty chunk (begin {b})"));
+                if n == 0 {
+                    self.viol("C16", "zero-chunk", format!("{what} on thread {tid}: a chunk pull of size 0 returned a chunk instead of nothing"));
+                }
             }
             if announced > n {
                 self.viol("C03", "oversized-chunk", format!("{what} on thread {tid} returned {announced} > {n} elements"));
@@ -539,7 +548,9 @@ where
                         }
                         None => {
                             let _ci = sh::end_call();
-                            cx.on_end(true);
+                            if n > 0 {
+                                cx.on_end(true);
+                            }
                             false
                         }
                     });
@@ -749,6 +760,7 @@ where
         closure_fault_at: Cell::new(if let Fault::Closure(k) = fault { Some(k) } else { None }),
         has_skip: cfg.has_skip(),
         has_foreach: cfg.has_foreach(),
+        has_extreme: cfg.plans.iter().flatten().any(|o| matches!(o, Op::Chunk(n, _) | Op::DrainChunk(n) | Op::Buf(n, _, _) | Op::DrainBuf(n) if *n == 0 || *n > (1 << 40))),
     });
     let shared = Rc::new(Shared { it: Some(it), src });
     let mut bodies: Vec<Box<dyn FnOnce()>> = vec![];
@@ -782,6 +794,10 @@ where
         Outcome::Hang(h) => {
             let frozen = res.frozen.map(|f| format!(" while thread {f} is suspended forever")).unwrap_or_default();
             cx.viol("C09", "hang", format!("threads {h:?} wait forever{frozen}: no enabled thread, every fair continuation keeps spinning"));
+            if sh::summary()[S_END] == 1 && res.frozen.is_none() && cx.cfg.fault == Fault::None {
+                // a pull that started after the end had been reported does not report the end: it never returns
+                cx.viol("C05", "hang-after-end", format!("threads {h:?} never return although a pull had already reported the end"));
+            }
             out.push_str("HANG ");
         }
         Outcome::NoReturn => {
